@@ -26,6 +26,8 @@ def step(cur, op, path):
     from zanj import ZANJ
 
     if op == "collect":
+        if cur.generation_metadata_collected is None and (len(cur) == 0 or any(m.generation_meta is None for m in cur.mazes)):
+            return cur, False  # not enabled: collection needs per-maze metadata (documented precondition)
         return cur.filter_by.collect_generation_meta(), False
     if op == "idfilter":
         return cur.filter_by.path_length(0), False
